@@ -578,16 +578,28 @@ class Model:
                     frontier.append((tgt, d + 1))
         return out
 
+    _inline_public = False
+
     def _private_target(self, call, f, mi, ci):
-        """FunctionDef of the private helper a call resolves to, or None"""
+        """FunctionDef of the private helper a call resolves to, or None (with
+        ``_inline_public`` set: any function of the same module called by its bare
+        name, any method of the same class called through self)"""
         n = call
-        if isinstance(n.func, ast.Name) and n.func.id.startswith("_"):
-            tgt = mi.functions.get(n.func.id)
-            if tgt is None:
-                for x in ast.walk(f):
-                    if isinstance(x, ast.FunctionDef) and x.name == n.func.id:
-                        return x
-            return tgt
+        if self._inline_public and isinstance(n.func, ast.Attribute) \
+                and not n.func.attr.startswith("__") \
+                and isinstance(n.func.value, ast.Name) \
+                and n.func.value.id in ("self", "cls") and ci is not None:
+            r = self.resolve_method(ci.qn, n.func.attr)
+            if r is not None:
+                return r[1]
+        if isinstance(n.func, ast.Name):
+            # a nested def is private to its function whatever it is called
+            for x in ast.walk(f):
+                if isinstance(x, ast.FunctionDef) and x.name == n.func.id and x is not f:
+                    return x
+            if n.func.id.startswith("_") or self._inline_public:
+                return mi.functions.get(n.func.id)
+            return None
         if isinstance(n.func, ast.Attribute) and n.func.attr.startswith("_") \
                 and not n.func.attr.startswith("__") \
                 and isinstance(n.func.value, ast.Name) \
@@ -607,7 +619,7 @@ class Model:
         */** arguments stays a call.  Rules that compare the text or the shape of a
         block work on this copy, so that extracting the block into a helper does not
         change what they see."""
-        key = (id(fd), depth)
+        key = (id(fd), depth, self._inline_public)
         cache = self.__dict__.setdefault("_inl_cache", {})
         if key in cache:
             return cache[key]
@@ -630,7 +642,7 @@ class Model:
         cache[key] = new
         return new
 
-    def expand_locals(self, fd):
+    def expand_locals(self, fd, only=None):
         """A copy of ``fd`` in which every use of a local that is bound exactly once,
         by a plain assignment, is replaced by the assigned expression (copy
         propagation on the syntax tree; uses before the assignment in source order
@@ -638,9 +650,11 @@ class Model:
         inverse refactoring; rules that look at what an argument IS work on this
         copy."""
         cache = self.__dict__.setdefault("_exp_cache", {})
-        if id(fd) in cache:
-            return cache[id(fd)]
+        ckey = (id(fd), only)
+        if ckey in cache:
+            return cache[ckey]
         new = _cp(fd)
+        _split_tuple_assigns(new)
         stores = {}
         seq = [0]
 
@@ -677,6 +691,29 @@ class Model:
                                 for x in ast.walk(n.value)) \
                     and not any(isinstance(x, (ast.Yield, ast.YieldFrom, ast.Await,
                                                ast.NamedExpr)) for x in ast.walk(n.value)):
+                # an object built by a constructor has an identity: `c = C()` used twice
+                # is one object, `C()` written twice would be two
+                builds = any(isinstance(x, ast.Call) and (
+                    (isinstance(x.func, ast.Name) and x.func.id[:1].isupper())
+                    or (isinstance(x.func, ast.Attribute) and x.func.attr[:1].isupper()))
+                    for x in ast.walk(n.value))
+                nuses = sum(1 for x in ast.walk(new) if isinstance(x, ast.Name)
+                            and x.id == tgt.id and isinstance(x.ctx, ast.Load))
+                # (it matters where the object is used as such: called, subscripted or
+                # an attribute read; not where it is merely passed on as a value)
+                as_object = any(
+                    (isinstance(x, (ast.Attribute, ast.Subscript)) and isinstance(x.value, ast.Name)
+                     and x.value.id == tgt.id)
+                    or (isinstance(x, ast.Call) and isinstance(x.func, ast.Name)
+                        and x.func.id == tgt.id) for x in ast.walk(new))
+                if builds and nuses > 1 and as_object:
+                    continue
+                # only="subscripts": propagate `x = table[i]` lookups and plain
+                # aliases only, containers keep their names
+                if only == "subscripts" and not (
+                        isinstance(n.value, (ast.Subscript, ast.Attribute, ast.Name))
+                        and _plain(n.value)):
+                    continue
                 defs[tgt.id] = (n.value, n._seq)
 
         class Sub(ast.NodeTransformer):
@@ -724,7 +761,7 @@ class Model:
                 ch._parent = p_
         new._parent = getattr(fd, "_parent", None)
         new._derived = True
-        cache[id(fd)] = new
+        cache[ckey] = new
         return new
 
     def comprehensions(self, fd):
@@ -844,6 +881,21 @@ class Model:
             from pta.pat import canon
             cache[id(fd)] = canon(self.expand_locals(self.comprehensions(
                 self.expand_locals(self.inlined(fd)))))
+        return cache[id(fd)]
+
+    def normal_wide(self, fd):
+        """like :meth:`normal`, but functions of the same module called by their bare
+        name and methods of the same class are inlined whether private or not
+        ('delegate to the sibling function that already does this')"""
+        cache = self.__dict__.setdefault("_normalw_cache", {})
+        if id(fd) not in cache:
+            from pta.pat import canon
+            self._inline_public = True
+            try:
+                cache[id(fd)] = canon(self.expand_locals(self.comprehensions(
+                    self.expand_locals(self.inlined(fd)))))
+            finally:
+                self._inline_public = False
         return cache[id(fd)]
 
     def returns_by_condition(self, fd):
@@ -1045,6 +1097,32 @@ class Model:
 _MUTATORS = {"append", "extend", "insert", "add", "update", "pop", "popitem", "remove",
              "discard", "clear", "setdefault", "sort", "reverse", "appendleft",
              "difference_update", "intersection_update", "symmetric_difference_update"}
+
+
+def _split_tuple_assigns(fd):
+    """``a, b = x, y`` is ``a = x`` and ``b = y`` when no target occurs in the values"""
+    for n in ast.walk(fd):
+        for fld in ("body", "orelse", "finalbody"):
+            blk = getattr(n, fld, None)
+            if not (isinstance(blk, list) and blk and isinstance(blk[0], ast.stmt)):
+                continue
+            out = []
+            for s_ in blk:
+                if isinstance(s_, ast.Assign) and len(s_.targets) == 1 \
+                        and isinstance(s_.targets[0], ast.Tuple) \
+                        and isinstance(s_.value, ast.Tuple) \
+                        and len(s_.targets[0].elts) == len(s_.value.elts) \
+                        and all(isinstance(t, ast.Name) for t in s_.targets[0].elts) \
+                        and not ({t.id for t in s_.targets[0].elts}
+                                 & {x.id for x in ast.walk(s_.value)
+                                    if isinstance(x, ast.Name)}):
+                    for t, v in zip(s_.targets[0].elts, s_.value.elts):
+                        a = ast.Assign(targets=[t], value=v, lineno=s_.lineno)
+                        ast.copy_location(a, s_)
+                        out.append(a)
+                else:
+                    out.append(s_)
+            setattr(n, fld, out)
 
 
 def _plain(e):
